@@ -208,10 +208,58 @@ AUTO_TYPES = {
     "Metrics": "Metrics",
     "GcSliceBuilder": "gc_arena::GcSliceBuilder<'static, u8>",
 }
+# an arena owns every allocation it made (rooted or not) and shares its Metrics: it is thread-bound
+# whatever its root type is
+AUTO_TYPES.update({
+    "Arena-unit-root": "Arena<Rootable![()]>",
+    "Arena-u32-root": "Arena<Rootable![u32]>",
+    "Arena-static-root": "Arena<Rootable![Static<u32>]>",
+    "Arena-string-root": "Arena<Rootable![Static<String>]>",
+    "MarkedArena": "gc_arena::arena::MarkedArena<'static, Rootable![u32]>",
+    "DynamicRoot-unit": "DynamicRoot<Rootable![()]>",
+    "GcWeak-unit": "GcWeak<'static, ()>",
+    "Gc-static": "Gc<'static, Static<u32>>",
+    "Lock": "Lock<Option<Gc<'static, i32>>>",
+    "RefLock": "RefLock<Option<Gc<'static, i32>>>",
+    "Write": "Write<Lock<Option<Gc<'static, i32>>>>",
+})
 for name, t in AUTO_TYPES.items():
     for tr in ("Send", "Sync"):
         add(f"c12-auto-{tr}-{name}", "C12", "reject",
             f"fn is<T: ?Sized + {tr}>() {{}}\nfn main() {{\n #[cfg(not(twin))] is::<{t}>();\n #[cfg(twin)] is::<i32>();\n}}", TR)
+
+# ------------------------------------------------------------------------------------------------
+# C12: `Gc::as_ref`, `Gc::write`, `unlock`, `RefLock::borrow` hand out `&'gc T` references whose
+# soundness rests on the fact that no type able to carry such a borrow is `Collect` (so it cannot be
+# stored in the root and outlive its target). Every borrowed form of std must be refused.
+BORROWED_FORMS = {
+    "ref": "&'gc i32",
+    "mut-ref": "&'gc mut i32",
+    "cow": "std::borrow::Cow<'gc, i32>",
+    "cow-str": "std::borrow::Cow<'gc, str>",
+    "cow-slice": "std::borrow::Cow<'gc, [u8]>",
+    "cell-ref": "std::cell::Ref<'gc, i32>",
+    "cell-refmut": "std::cell::RefMut<'gc, i32>",
+    "slice-iter": "std::slice::Iter<'gc, i32>",
+    "chars": "std::str::Chars<'gc>",
+    "box-ref": "Box<&'gc i32>",
+    "option-ref": "Option<&'gc i32>",
+    "vec-ref": "Vec<&'gc i32>",
+    "tuple-ref": "(&'gc i32, u8)",
+    "rc-ref": "Rc<&'gc i32>",
+    "static-ref-wrapper": "Static<&'gc i32>",
+    "lock-ref": "Lock<&'gc i32>",
+    "reflock-cow": "RefLock<std::borrow::Cow<'gc, i32>>",
+    "fn-ptr-arg": "fn(&'gc i32)",
+    "dyn-fn": "Box<dyn Fn() -> &'gc i32 + 'gc>",
+}
+for name, t in BORROWED_FORMS.items():
+    add(f"c12-borrowed-form-not-collect-{name}", "C12", "reject",
+        f"fn need<'gc, T: Collect<'gc> + ?Sized>() {{}}\nfn probe<'gc>(mc: &Mutation<'gc>) {{\n #[cfg(not(twin))] need::<'gc, {t}>();\n #[cfg(twin)] need::<'gc, &'static i32>();\n}}\nfn main() {{ gc_arena::arena::rootless_mutate(|mc| probe(mc)); }}", TR + LT)
+# and the end-to-end form of the same escape: a borrow of arena memory kept in the root across a
+# collection (must be rejected; if it ever compiles it is run and must not observe a destructed value)
+add("c12-borrowed-cow-in-root", "C12", "reject-or-run",
+    "use std::borrow::Cow;\nthread_local! { static D: Cell<u32> = Cell::new(0); }\n#[derive(Clone)] struct P(u64);\nimpl Drop for P { fn drop(&mut self) { D.with(|d| d.set(d.get() + 1)); } }\ngc_arena::static_collect!(P);\n#[derive(Collect)]\n#[collect(no_drop)]\nstruct R<'gc> { keep: Option<Gc<'gc, P>>, b: Option<Cow<'gc, P>> }\nfn main() {\n let mut arena = Arena::<Rootable![R<'_>]>::new(|mc| R { keep: Some(Gc::new(mc, P(7))), b: None });\n arena.mutate_root(|mc, root| { let g = root.keep.take().unwrap(); root.b = Some(Cow::Borrowed(Gc::as_ref(g))); });\n arena.finish_cycle(); arena.finish_cycle();\n let d = D.with(|d| d.get());\n let alive = arena.mutate(|_, root| root.b.is_some());\n if d == 0 { println!(\"PROBE-OK\"); } else { println!(\"PROBE-VIOLATION the root still holds a borrow of a value that was destructed {} times\", d); }\n}", twin=False)
 
 # ------------------------------------------------------------------------------------------------
 # C16 half: impls that claim "no tracing" exist only for types that cannot hold arena pointers
@@ -467,6 +515,44 @@ for sname, (decl, fdecl, finit) in FORGE_SOURCES.items():
     for pname, path in FORGE_PATHS.items():
         adopt = f"{decl} let w: &Write<_> = Write::from_mut(&mut src); let cell = {path}; {STORE[kind]}"
         c13run(f"c13-forge-{sname}-{pname}", fdecl, finit, adopt, read, expect="reject-or-run", note=f"from_mut on {sname}, then {pname}")
+
+# ---- redirecting index family: coherence lets a client implement `Index<LocalIdx>` for a std
+# container; such an `index` may return a reference into ANOTHER allocation (through `Gc::as_ref`).
+# `Write<Container>[LocalIdx]` must therefore not exist (IndexWrite is only implemented for the
+# std index types). Whatever compiles is run: the child is stored into a fully marked object that
+# never saw a barrier.
+REDIRECT = {
+    "vec": ("Vec<Cellt<'gc>>", "let mut src: Vec<Cellt<'_>> = Vec::new();"),
+    "vecdeque": ("std::collections::VecDeque<Cellt<'gc>>", "let mut src: std::collections::VecDeque<Cellt<'_>> = Default::default();"),
+    "slice": ("[Cellt<'gc>]", "let mut arr: [Cellt<'_>; 0] = []; let mut src: &mut [Cellt<'_>] = &mut arr[..];"),
+    "boxed-slice": ("Box<[Cellt<'gc>]>", "let mut src: Box<[Cellt<'_>]> = Vec::new().into_boxed_slice();"),
+    "btreemap": ("std::collections::BTreeMap<u8, Cellt<'gc>>", "let mut src: std::collections::BTreeMap<u8, Cellt<'_>> = Default::default();"),
+    "hashmap": ("std::collections::HashMap<u8, Cellt<'gc>>", "let mut src: std::collections::HashMap<u8, Cellt<'_>> = Default::default();"),
+}
+for cname, (cty, decl) in REDIRECT.items():
+    for how in ("from_mut", "field"):
+        items = (f"type Cellt<'gc> = Lock<Option<Child<'gc>>>; struct Via<'gc>(Gc<'gc, Cellt<'gc>>); "
+                 f"impl<'gc> std::ops::Index<Via<'gc>> for {cty} {{ type Output = Cellt<'gc>; fn index(&self, i: Via<'gc>) -> &Cellt<'gc> {{ Gc::as_ref(i.0) }} }} ")
+        if how == "from_mut":
+            src = decl.replace("&mut arr[..]", "&mut arr[..]")
+            w = "let w = Write::from_mut(&mut src);" if cname != "slice" else "let w: &Write<[Cellt<'_>]> = Write::from_mut(src);"
+            adopt = items + f"{src} {w} w[Via(parent.target)].unlock().set(Some(child));"
+            c13run(f"c13-redirect-index-{cname}-{how}", "target: Gc<'gc, Lock<Option<Child<'gc>>>>", "target: Gc::new(mc, Lock::new(None))", adopt,
+                   "parent.target.get().map(|c| c.0)", expect="reject-or-run", note=f"client Index<LocalIdx> impl on {cname} returning a reference into another allocation")
+        elif cname in ("vec", "vecdeque", "btreemap", "hashmap", "boxed-slice"):
+            # the container is a field of the (barriered) parent; the index leaves the parent
+            fty = cty
+            finit = {"vec": "Vec::new()", "vecdeque": "Default::default()", "btreemap": "Default::default()", "hashmap": "Default::default()", "boxed-slice": "Vec::new().into_boxed_slice()"}[cname]
+            path = "field!(Gc::write(mc, parent.holder), Holder2, c)" + (".as_deref()" if cname == "boxed-slice" else "")
+            adopt = f"let cell = &{path}[Via(parent.target)]; cell.unlock().set(Some(child));"
+            body_items = (f"type Cellt<'gc> = Lock<Option<Child<'gc>>>;\nstruct Via<'gc>(Gc<'gc, Cellt<'gc>>);\n"
+                          f"impl<'gc> std::ops::Index<Via<'gc>> for {cty} {{ type Output = Cellt<'gc>; fn index(&self, i: Via<'gc>) -> &Cellt<'gc> {{ Gc::as_ref(i.0) }} }}\n"
+                          f"#[derive(Collect)]\n#[collect(no_drop)]\nstruct Holder2<'gc> {{ c: {fty} }}\n")
+            # (items at module level: prepend them to the parent's field declaration block through the note-free hook below)
+            c13run(f"c13-redirect-index-{cname}-{how}", "target: Gc<'gc, Lock<Option<Child<'gc>>>>, holder: Gc<'gc, Holder2<'gc>>",
+                   f"target: Gc::new(mc, Lock::new(None)), holder: Gc::new(mc, Holder2 {{ c: {finit} }})", adopt,
+                   "parent.target.get().map(|c| c.0)", expect="reject-or-run", note=f"same with the container as a field of a barriered object ({cname})")
+            PROBES[-1]["body"] = PROBES[-1]["body"].replace("#[derive(Collect)]\n#[collect(no_drop)]\nstruct Parent<'gc>", body_items + "#[derive(Collect)]\n#[collect(no_drop)]\nstruct Parent<'gc>", 1)
 
 # ------------------------------------------------------------------------------------------------
 # C19 half: every Gc<T> obtainable without unsafe refers to a T the caller constructed
